@@ -18,6 +18,15 @@ __CPROVER_assigns()
 {
 }
 
+/* uniqueness of quotient and remainder for the divisor 10^6 (used by the timeval inverse law) */
+void c18_lemma_divmod_unique(uint64_t q1, uint64_t r1, uint64_t q2, uint64_t r2)
+__CPROVER_requires(r1 < 1000000 && r2 < 1000000 && q1 <= 18446744073709ull && q2 <= 18446744073709ull)
+__CPROVER_requires((unsigned __int128)q1 * 1000000 + r1 == (unsigned __int128)q2 * 1000000 + r2)
+__CPROVER_ensures(q1 == q2 && r1 == r2)
+__CPROVER_assigns()
+{
+}
+
 /* congruence of % (trivial; stated as a lemma because the integer-arithmetic back end that proves the decomposition below
  * does not derive it by itself) */
 void c18_lemma_cong24(uint64_t x, uint64_t y)
